@@ -40,6 +40,8 @@ def _unref(t):
 
 
 def run(F, R, tier, cfg):
+    import c06
+    c06.best_valid_rule(F, R)      # 'an earlier lookup still valid': the candidate for the active slot is a Valid path
     # ---- A: filter on every fetch
     co = PS + "fetch_and_filter_paths::{closure#0}"
     b = F.body(co)
